@@ -23,7 +23,8 @@ X == <<120>>
 NsChoices == {<<>>, U1, U2, XHTML}
 AtNo == [k |-> A, ns |-> <<>>, local |-> A, v |-> X, list |-> FALSE]
 AtNs(px, uri) == [k |-> px \o <<58>> \o A, ns |-> uri, local |-> A, v |-> X, list |-> FALSE]
-AttrChoices == {<<>>, <<AtNo>>, <<AtNs(P, U1)>>, <<AtNs(P, U2)>>, <<AtNs(DP, U1)>>, <<AtNo, AtNs(Q, U2)>>}
+AttrChoices == {<<>>, <<AtNo>>, <<AtNs(P, U1)>>, <<AtNs(P, U2)>>, <<AtNs(DP, U1)>>, <<AtNo, AtNs(Q, U2)>>,
+                <<AtNs(P, U1), AtNs(Q, U2)>>, <<AtNs(Q, U2), AtNs(P, U1)>>, <<AtNs(DP, U2), AtNs(Q, U1), AtNo>>}
 
 Map(seq) == seq
 Maps == { <<>>,
@@ -45,7 +46,7 @@ Forms == {Cx1(<<TypeS(ns, E)>>) : ns \in {NsB, NsN, NsA, NsP(P), NsP(Q), NsP(U)}
           Cx1(<<[k |-> "not", args |-> <<Cx1(<<TypeS(NsP(P), E)>>)>>]>>),
           Cx1(<<[k |-> "is", args |-> <<Cx1(<<AttrS(NsB)>>)>>]>>)}
     \cup {Cx1(<<AttrS(ns)>>) : ns \in {NsB, NsN, NsA, NsP(P), NsP(Q), NsP(U)}}
-    \cup {Cx1(<<TypeS(NsP(P), E), AttrS(NsP(P))>>), Cx1(<<[k |-> "first-of-type"]>>)}
+    \cup {Cx1(<<TypeS(NsP(P), E), AttrS(NsP(P))>>), Cx1(<<[k |-> "first-of-type"]>>), Cx1(<<AttrS(NsP(P)), AttrS(NsP(Q))>>)}
 PoolSet == {[sel |-> <<f>>, ns |-> m] : f \in Forms, m \in Maps}
 Pool == SetToSeq(PoolSet)
 ASSUME PrintT(ToJson([pool |-> Pool]))
